@@ -74,6 +74,18 @@ TEXT['C16'] = (
     'for conservation only. Thorough tier re-runs sampled solves under every solver policy.',
     'DESIGN.md 3.16')
 
+TEXT['C11'] = (
+    'Seeded search over build / edit / encode / decode / decode-the-same-dictionary-again / re-encode histories on object '
+    'graphs of every class in the quantifier (all mode models, StatMech with references and misc models, Nasa, Nasa9, '
+    'SingleNasa9, Shomate, Reference(s), GasPressureAdj, PiecewiseCovEffect, CatSite, BEP, Reaction, ChemkinReaction, '
+    'SurfaceReaction, Reactions, PhaseDiagram, equations of state; species shared between reactions), through the real JSON '
+    'encoder and object hook and through to_dict/json_to_pmutt, 1-4 cycles. Oracle after every cycle: same class; every public '
+    'get_* whose required parameters a fixed pool of scalar conditions can fill returns the same value (NaN-aware, same '
+    'exception type); identifying attributes equal; the dictionary handed to the decoder equals its pre-call deep copy; the '
+    'second decode of the same dictionary equals the first. Defects the pinned tests forbid repairing are recorded known '
+    'findings with their triggers excluded from generation.',
+    'DESIGN.md 3.11')
+
 TECHNIQUE = 'deterministic simulation with fault injection (seeded schedule/history search, reference-model oracle, ddmin replay)'
 
 
